@@ -78,6 +78,20 @@ TEMPLATES = [
     T("iso_T_ms_comma", "ms", lambda d: "%s-%02d-%02dT%02d:%02d:%02d,%03d" % (
         Y(d), d.month, d.day, d.hour, d.minute, d.second,
         d.microsecond // 1000)),
+    # fractions of one, two, four and five digits
+    T("iso_sp_f1", "f1", lambda d: "%s-%02d-%02d %02d:%02d:%02d.%01d" % (
+        Y(d), d.month, d.day, d.hour, d.minute, d.second,
+        d.microsecond // 100000)),
+    T("iso_T_f2", "f2", lambda d: "%s-%02d-%02dT%02d:%02d:%02d.%02d" % (
+        Y(d), d.month, d.day, d.hour, d.minute, d.second,
+        d.microsecond // 10000)),
+    T("iso_sp_f4_comma", "f4",
+      lambda d: "%s-%02d-%02d %02d:%02d:%02d,%04d" % (
+          Y(d), d.month, d.day, d.hour, d.minute, d.second,
+          d.microsecond // 100)),
+    T("mon_d_y_f5", "f5", lambda d: "%s %02d, %s %02d:%02d:%02d.%05d" % (
+        MONTHS3[d.month - 1], d.day, Y(d), d.hour, d.minute, d.second,
+        d.microsecond // 10)),
     # ctime / RFC 2822
     T("ctime", "s", lambda d: "%s %s %2d %02d:%02d:%02d %s" % (
         WD3[d.weekday()], MONTHS3[d.month - 1], d.day, d.hour, d.minute,
@@ -203,6 +217,9 @@ def truncate(d, precision):
         return d
     if precision == "ms":
         return d.replace(microsecond=d.microsecond // 1000 * 1000)
+    if precision in ("f1", "f2", "f4", "f5"):
+        q = 10 ** (6 - int(precision[1]))
+        return d.replace(microsecond=d.microsecond // q * q)
     if precision == "s":
         return d.replace(microsecond=0)
     if precision == "min":
